@@ -1,5 +1,6 @@
 import Tahoe.Base.DrvUtil
 import Tahoe.Sftp.Consumer
+import Tahoe.Sftp.Handle
 /-! Driver for C39: `c39 <orig-hex> ev ev …` (one whole history per line) where ev ∈
     k:N (download chunk of N bytes)  w:OFF:HEX (overwrite)  s:N (set_current_size)  r:OFF:LEN (read)
     d:1 | d:0 (download_done with bytes | Failure)  f (one eventual-queue turn)  c (close).
@@ -56,7 +57,42 @@ def go (v : Variant) (o : String) (evs : List String) : String :=
     | none => "bad-op"
   | _, _ => "bad-op"
 
+/-! `c39h <code|sizefix|seede> <orig-hex> ev …` runs the handle model (`Tahoe/Sftp/Handle.lean`); ev ∈
+    W:OFF:HEX (writeChunk request)  S:N (setAttrs size request)  C (close request)  st (the download starts)
+    k:N (download chunk)  d:1|d:0 (download_done)  t (the turn in which when_done() fires).
+    Output: `<has_changed after each event, one digit each> <pending|ok|failed> <stored-hex | none>`. -/
+def parseHEv (t : String) : Option HEv :=
+  match t.splitOn ":" with
+  | ["W", o, h] => do pure (.write (← o.toNat?) (← bytesOfHex h))
+  | ["S", n] => do pure (.setSize (← n.toNat?))
+  | ["C"] => some .close
+  | ["st"] => some .start
+  | ["k", n] => do pure (.chunk (← n.toNat?))
+  | ["d", "1"] => some (.done true)
+  | ["d", "0"] => some (.done false)
+  | ["t"] => some .turn
+  | _ => none
+
+def hrunShow (hv : HVariant) (orig : Tahoe.Sftp.Bytes) (h : HSt) (acc : List Char) : List HEv → HSt × List Char
+  | [] => (h, acc.reverse)
+  | e :: es =>
+    let h' := hstep hv orig h e
+    hrunShow hv orig h' ((if h'.hasChanged then '1' else '0') :: acc) es
+
+def goH (v o : String) (evs : List String) : String :=
+  let hv : Option HVariant := if v == "code" then some .code else if v == "sizefix" then some .sizeFix
+    else if v == "seede" then some .seedE else none
+  match hv, bytesOfHex o, evs.mapM parseHEv with
+  | some hv, some orig, some es =>
+    let r := hrunShow hv orig (hinit orig) [] es
+    let res := match r.1.res with | .pending => "pending" | .ok => "ok" | .failed => "failed"
+    let st := match r.1.stored with | some b => hexOfBytes b | none => "none"
+    let flags := if r.2.isEmpty then "-" else String.ofList r.2
+    s!"{flags} {res} {st}"
+  | _, _, _ => "bad-op"
+
 def handle : List String → String
+  | "c39h" :: v :: o :: evs => goH v o evs
   | "c39" :: o :: evs => go .fixed o evs
   | "c39asis" :: o :: evs => go .asIs o evs
   | _ => "bad-op"
